@@ -249,10 +249,10 @@ Definition p_fine_mid : iprog := [IS (SAssign vw (EAtom (AInt 3))); IS (SPrint (
 Definition p_fine : iprog :=
   IS (SAssign va (EDisp [3; 1; 2])) :: IS (SAssign vy (ESorted false (EAtom (AVar va)))) :: p_fine_mid ++ [use_sum; print_z].
 
-(* F02idx-6, before 0eb93cc: the generator function is called, and its elements are pulled, twice; the repaired rule
+(* F02idx-6, before 07a567e: the generator function is called, and its elements are pulled, twice; the repaired rule
    leaves the module alone *)
-Theorem inl_before_0eb93cc_refuted :
-  exists W p, inl p = p /\ obs (run_i W (inl_before_0eb93cc p)) <> obs (run_i W p).
+Theorem inl_before_07a567e_refuted :
+  exists W p, inl p = p /\ obs (run_i W (inl_before_07a567e p)) <> obs (run_i W p).
 Proof. exists W12, p_twice. split; [reflexivity|]. vm_compute. discriminate. Qed.
 (* F02idx-7: the first evaluation used the iterator up: 0 is printed instead of 3 *)
 Theorem inl_used_up_refuted : exists W p, obs (run_i W (inl p)) <> obs (run_i W p).
